@@ -750,6 +750,9 @@ def _walk(ctx):
         if key[0] == 'truth' and not key[2] and \
                 key[1].startswith('self.check_app_constraints('):
             return True
+        if key[0] == 'truth' and key[2] and '.put(' in key[1] and \
+                not key[1].startswith('self.'):
+            return True         # placed on the first child tried
         return key[0] == 'is' and key[2] == 'None' and key[3] and \
             key[1] in _suggested(put)
     path = K.find_path(
